@@ -831,6 +831,14 @@ def _c05_exec_body(v, code, n):
     o1, r1, e1, t1 = _run(code, "<exec-safe>")
     if t1:
         return {"status": "inconclusive", "why": "time budget", "violations": [], "features": {}, "info": {}}
+    # self-consistency filter: a program whose behaviour depends on object addresses (iteration order
+    # of a set of functions, id(), default hashes) differs between two runs of the SAME code object;
+    # such a program cannot tell the two code objects apart
+    o1b, r1b, e1b, t1b = _run(code, "<exec-safe>")
+    if t1b or (o1, r1, e1) != (o1b, r1b, e1b):
+        v.features["nondeterministic_program"] += 1
+        return {"status": "inconclusive", "why": "the original behaves differently on two runs", "violations": [],
+                "features": dict(v.features), "info": {}}
     o2, r2, e2, t2 = _run(n, "<exec-safe>")
     if t2:
         # the original terminated within the budget: give the normalized one a second chance before judging
